@@ -531,6 +531,58 @@ func ruleLockOrder(c *Ctx) {
 	}
 	type edge struct{ a, b *types.Var }
 	edges := map[edge]string{}
+	// self re-acquisition: while a mutex of object X is held, a method is called
+	// on the same X that (transitively) takes that mutex again. sync.Mutex is not
+	// reentrant: the goroutine deadlocks with itself.
+	nSelf := 0
+	for _, f := range p.Funcs {
+		li := p.Locks(f)
+		g := p.Graph(f)
+		info := f.Pkg.TypesInfo
+		// owner expression of each mutex locked in f: c.l.Lock() -> "c"
+		owner := map[*types.Var]string{}
+		for _, call := range f.Calls() {
+			if v, op := p.lockOp(f, call); v != nil && op == "lock" {
+				if se, ok := ast.Unparen(call.Fun).(*ast.SelectorExpr); ok {
+					if mu, ok := ast.Unparen(se.X).(*ast.SelectorExpr); ok {
+						owner[v] = accessPath(info, mu.X)
+					} else if id, ok := ast.Unparen(se.X).(*ast.Ident); ok {
+						// embedded mutex: m.Lock()
+						owner[v] = accessPath(info, id)
+					}
+				}
+			}
+		}
+		for _, cs := range ci.sites[f] {
+			if cs.Kind != "call" || cs.Node == nil || cs.Dynamic || cs.IsIface {
+				continue
+			}
+			se, ok := ast.Unparen(cs.Call.Fun).(*ast.SelectorExpr)
+			if !ok {
+				continue
+			}
+			recv := accessPath(info, se.X)
+			if recv == "" {
+				continue
+			}
+			for h := range li.must[cs.Node] {
+				if owner[h] == "" || owner[h] != recv {
+					continue
+				}
+				for _, ce := range cs.Callees {
+					if acq[ce][h] {
+						nSelf++
+						c.R.Violate("R-LOCKORDER/self", p.Pos(cs.Call), f.Name, "call "+ce.Name+" with "+p.lockName(h)+" held",
+							"the call is made while "+p.lockName(h)+" of the same object is certainly held, and "+ce.Name+" acquires that mutex: sync.Mutex is not reentrant, so the goroutine deadlocks with itself (and every other user of the object behind it) whenever this statement executes", nil)
+					}
+				}
+			}
+		}
+		_ = g
+	}
+	if nSelf == 0 {
+		c.R.Hold("R-LOCKORDER/self", "-", "", "no self re-acquisition", "no method that takes an object's mutex is called on that object while the mutex is certainly held", true)
+	}
 	for _, f := range p.Funcs {
 		li := p.Locks(f)
 		g := p.Graph(f)
